@@ -104,9 +104,9 @@ type tierCfg struct {
 
 func tierOf(name string) tierCfg {
 	if name == "thorough" {
-		return tierCfg{name: "thorough", maxPaths: 60000, unwind: 16, solverMs: 120000, perHarness: 25 * time.Minute, samples: 12, solvers: []string{"z3-new", "cvc5", "z3"}}
+		return tierCfg{name: "thorough", maxPaths: 60000, unwind: 16, solverMs: 120000, perHarness: 25 * time.Minute, samples: 12, solvers: []string{"z3-new+z3", "cvc5"}}
 	}
-	return tierCfg{name: "quick", maxPaths: 6000, unwind: 12, solverMs: 20000, perHarness: 150 * time.Second, samples: 3, solvers: []string{"z3-new"}}
+	return tierCfg{name: "quick", maxPaths: 6000, unwind: 12, solverMs: 20000, perHarness: 150 * time.Second, samples: 3, solvers: []string{"z3-new+z3"}}
 }
 
 type harnessResult struct {
@@ -719,7 +719,7 @@ func writeEvidence(prop string, tc tierCfg, seed int64, results []*harnessResult
 		disagreements = append(disagreements, prefixAll(r.h.Name()+": ", r.disagree)...)
 		hi := map[string]interface{}{"harness": r.h.Name(), "paths": ex.Paths, "paths_by_end": ex.PathsByEnd, "instructions": ex.Steps,
 			"solver": r.solver.Name, "queries": r.solver.Queries, "solver_ms": r.solver.Millis, "wall_s": r.wall.Seconds(),
-			"by_result": map[string]int{"unsat": r.solver.ByRes[0], "sat": r.solver.ByRes[1], "unknown": r.solver.ByRes[2]}}
+			"by_result": map[string]int{"unsat": r.solver.ByRes[0], "sat": r.solver.ByRes[1], "unknown": r.solver.ByRes[2]}, "decided_by": r.solver.ByProc}
 		if r.crossChk != nil {
 			hi["cross_check"] = r.crossChk
 		}
@@ -796,7 +796,11 @@ func prefixAll(p string, xs []string) []string {
 
 func solverVersions(kinds []string) map[string]string {
 	m := map[string]string{}
+	var all []string
 	for _, k := range kinds {
+		all = append(all, strings.Split(k, "+")...)
+	}
+	for _, k := range all {
 		out, err := exec.Command(k, "--version").CombinedOutput()
 		if err == nil {
 			m[k] = strings.TrimSpace(strings.Split(string(out), "\n")[0])
@@ -811,8 +815,9 @@ func debugCmd(args []string) int {
 	fs := flag.NewFlagSet("debug", flag.ExitOnError)
 	trace := fs.Bool("trace", false, "")
 	only := fs.String("only", "", "")
-	solver := fs.String("solver", "z3-new", "")
+	solver := fs.String("solver", "z3-new+z3", "")
 	paths := fs.Int("paths", 5000, "")
+	witness := fs.String("witness", "", "pin the draws to this witness file")
 	fs.Parse(args[1:])
 	prop := args[0]
 	t0 := time.Now()
@@ -834,6 +839,16 @@ func debugCmd(args []string) int {
 		ex := symex.NewExec(p, h, s, symex.Limits{MaxPaths: *paths, Unwind: 12, MaxDepth: 250, MaxSteps: 4000000})
 		ex.Trace = *trace
 		ex.Tier = "quick"
+		if *witness != "" {
+			data, _ := os.ReadFile(*witness)
+			var wf witnessFile
+			json.Unmarshal(data, &wf)
+			if wf.Harness != h.Name() {
+				continue
+			}
+			ex.Fixed = wf.Draws
+			ex.TraceInstr = *trace
+		}
 		t1 := time.Now()
 		ex.Run()
 		s.Close()
